@@ -16,6 +16,8 @@ use crate::{Error, WithErrorInfo};
 fn std() -> &'static decl::Module {
     static STD: OnceLock<decl::Module> = OnceLock::new();
     STD.get_or_init(|| {
+        #[cfg(prql_verif)]
+        debug::verif::gate("StdInit");
         let _suppressed = debug::log_suppress();
 
         let std_lib = crate::SourceTree::new(
